@@ -6,6 +6,9 @@ Definition (property statement, docs/dynamics.md):
     evenly spaced frames:    C(k) = mean over all origins t of P(t + k, t),  k = 0 .. T-1  (T - k origins)
     unevenly spaced frames:  C(k) = P(k, 0)                                   (first frame is the only origin)
     result(k) = C(k) / C(0),   t(k) = (timestep_k - timestep_0) * dt
+"Evenly spaced" = all successive timestep differences are equal (timesteps are integers); one or two frames are
+evenly spaced by that definition and both origin rules coincide for them.  A schedule that is even except for a
+single gap (first, last, anywhere), a power-of-two schedule or a LAMMPS logarithmic-block schedule is uneven.
 No import of PyMatterSim.
 """
 from __future__ import annotations
@@ -57,6 +60,32 @@ def unnormalised(series, even):
         C[k] = float(np.sum(vals)) / len(vals)
         S[k] = float(np.sum([_abs_product(A[t + k], A[t]) for t in origins])) / len(vals)
     return C, S
+
+
+def lag_zero(series, even):
+    """(C(0), S(0)): the un-normalised lag-zero value and the sum of the absolute values of its terms."""
+    A = np.asarray(series)
+    frames = range(A.shape[0]) if even else [0]
+    c = float(np.sum([_product(A[t], A[t]).real for t in frames])) / len(frames)
+    s = float(np.sum([_abs_product(A[t], A[t]) for t in frames])) / len(frames)
+    return c, s
+
+
+def well_conditioned(series, ratio=0.05):
+    """True when the lag-zero value is bounded away from zero relative to the size of its terms under BOTH origin
+    rules (so that the series can be combined with an even and with an uneven schedule)."""
+    for even in (True, False):
+        c, s = lag_zero(series, even)
+        if not (s > 0.0 and abs(c) >= ratio * s):
+            return False
+    return True
+
+
+def normalised(series, timesteps):
+    """(want, C, S, even): want[k] = C[k] / C[0] under the origin rule selected by the spacing of `timesteps`."""
+    even = evenly_spaced(timesteps)
+    C, S = unnormalised(series, even)
+    return C / C[0], C, S, even
 
 
 def time_axis(timesteps, dt):
